@@ -12,13 +12,13 @@ CMP = ("Eq", "Ne", "Lt", "Le", "Gt", "Ge")
 NEG = {"Eq": "Ne", "Ne": "Eq", "Lt": "Ge", "Ge": "Lt", "Gt": "Le", "Le": "Gt"}
 
 
-def edge_atom(b, src, label, depth=12):
+def edge_atom(b, src, label, depth=12, named_leaf=False):
     """(expr, truth) for a switch edge: bool switches give truth True/False with `!` peeled off and
     comparisons normalised to truth=True; enum matches give (('discr', place), variant)"""
     t = b.blocks[src]["term"]
     if t["k"] != "switch":
         return None
-    e = b.expr(t["d"], depth)
+    e = b.expr(t["d"], depth, named_leaf)
     if e[0] == "discr":
         return (e, label)
     truth = None
@@ -51,12 +51,12 @@ def edge_atom(b, src, label, depth=12):
     return (e, truth)
 
 
-def dom_atoms(b, blk):
+def dom_atoms(b, blk, named_leaf=False):
     out = []
     for (src, tgt, label) in b.dominating_edges(blk):
         if isinstance(label, tuple):
             continue
-        a = edge_atom(b, src, label)
+        a = edge_atom(b, src, label, 12, named_leaf)
         if a is not None:
             out.append((a[0], a[1], src))
     return out
